@@ -117,6 +117,8 @@ def decrease_task(handler):
                 ra, rb = ea[1].get('amount').t, eb[1].get('amount').t
             else:
                 ra, rb = da, db
+            locked = rets(e, p, r'pino_is_locked_position$')
+            ob('locked_position_refused', T.not_(locked[0][1].t) if (locked and isinstance(locked[0][1], B)) else FALSE, 'liquidity cannot be removed from a locked position')
             ob('token_min_respected_on_what_the_user_receives', T.and_(T.cmp('>=', ra, d.get('token_min_a').t), T.cmp('>=', rb, d.get('token_min_b').t)))
             seq = order_of(p, [r'pino_verify_position_authority$', r'pino_sync_modify_liquidity_values$', r'pino_transfer_from_vault_to_owner(_v2)?$'])
             ob('authority_then_state_then_transfers', TRUE if seq == sorted(seq) and seq[:1] == [0] and 1 in seq else FALSE, str(seq))
